@@ -37,6 +37,12 @@ fn bare_load<T: Deserialize>(b: &[u8]) -> String {
     }
 }
 
+static LIGHT: std::sync::atomic::AtomicBool = std::sync::atomic::AtomicBool::new(false);
+/// light mode: skip the truncation and mutation probes (each runs in a forked child)
+pub fn set_light(on: bool) {
+    LIGHT.store(on, std::sync::atomic::Ordering::SeqCst);
+}
+
 /// the three oracles for one value of one type; `same` decides equality after the round trip
 fn probe<T: Serialize + Deserialize + WithSchema>(name: &str, x: &T, same: impl Fn(&T, &T) -> bool, show: impl Fn(&T) -> String, r: &mut Rng, out: &mut Vec<String>) {
     let bytes = match save_bytes(x) {
@@ -55,10 +61,13 @@ fn probe<T: Serialize + Deserialize + WithSchema>(name: &str, x: &T, same: impl 
         Err(e) => out.push(format!("!C01 saved-file-does-not-load type={} value={} got={}", name, show(x), e)),
     }
     out.push(format!("#stat extras-roundtrip-{} 1", name));
+    if LIGHT.load(std::sync::atomic::Ordering::SeqCst) {
+        return;
+    }
     // every strict prefix of the payload (schema-less, so that the payload is what is cut)
     let payload = bare(x);
-    for k in 0..payload.len() {
-        let rep = isolated(|| bare_load::<T>(&payload[..k]));
+    let cuts: Vec<usize> = (0..payload.len()).collect();
+    for (k, rep) in cuts.iter().zip(isolated_batch(&cuts, |k| bare_load::<T>(&payload[..*k]))) {
         if rep.starts_with("(panic") || rep.starts_with("(abort") {
             out.push(format!("!C06 truncated-input-panics type={} cut={}/{} got={}", name, k, payload.len(), &rep[..rep.len().min(120)]));
         } else if rep.starts_with("(ok") {
@@ -66,6 +75,7 @@ fn probe<T: Serialize + Deserialize + WithSchema>(name: &str, x: &T, same: impl 
         }
     }
     // mutations: single bytes, and the length words set to hostile values
+    let mut muts: Vec<Vec<u8>> = Vec::new();
     for _ in 0..24 {
         let mut m = payload.clone();
         if m.is_empty() {
@@ -96,10 +106,14 @@ fn probe<T: Serialize + Deserialize + WithSchema>(name: &str, x: &T, same: impl 
                 }
             }
         }
-        let rep = isolated(|| bare_load::<T>(&m));
+        muts.push(m);
+    }
+    for (m, rep) in muts.iter().zip(isolated_batch(&muts, |m| bare_load::<T>(m))) {
         out.push(format!("#stat extras-mutated-{} 1", rep.trim_matches(|c| c == '(' || c == ')').split(' ').next().unwrap_or("")));
-        if rep.starts_with("(panic") || (rep.starts_with("(abort") && !rep.contains("abort 6")) {
-            out.push(format!("!C06 malformed-input-panics type={} input={} got={}", name, hex(&m), &rep[..rep.len().min(140)]));
+        if rep.starts_with("(abort 14") {
+            out.push(format!("!C06 malformed-input-hangs type={} input={} got=no-result-after-60s", name, hex(m)));
+        } else if rep.starts_with("(panic") || (rep.starts_with("(abort") && !rep.contains("abort 6")) {
+            out.push(format!("!C06 malformed-input-panics type={} input={} got={}", name, hex(m), &rep[..rep.len().min(140)]));
         } else if rep.starts_with("(abort") {
             // SIGABRT: allocation failure on an absurd declared length is exempt only if the input declares it
             out.push(format!("#stat extras-abort6-{} 1", name));
@@ -107,9 +121,158 @@ fn probe<T: Serialize + Deserialize + WithSchema>(name: &str, x: &T, same: impl 
     }
 }
 
+/// C04 for library types with a hand-written `Packed` impl: containers that may take the bulk (memory copy)
+/// path must produce exactly the item-wise encoding and read it back as the same values; so must a derived
+/// struct that holds such a value between other packed fields.
+fn bulk_probe<T: Serialize + Deserialize + WithSchema + Packed + Clone + 'static>(name: &str, items: &[T], same: impl Fn(&T, &T) -> bool, out: &mut Vec<String>) {
+    let mut itemwise: Vec<u8> = Vec::new();
+    for x in items {
+        itemwise.extend_from_slice(&bare(x));
+    }
+    let mut with_len = (items.len() as u64).to_le_bytes().to_vec();
+    with_len.extend_from_slice(&itemwise);
+    let v: Vec<T> = items.to_vec();
+    let boxed: Box<[T]> = items.to_vec().into_boxed_slice();
+    let shapes: Vec<(&str, Vec<u8>)> = vec![("Vec", bare(&v)), ("BoxSlice", bare(&boxed))];
+    for (shape, got) in shapes {
+        out.push("#stat extras-bulk-checks 1".into());
+        if got != with_len {
+            out.push(format!("!C04 bulk-bytes-differ-from-itemwise type={}<{}> itemwise={} bulk={}", shape, name, hex(&with_len), hex(&got)));
+        }
+    }
+    if items.len() >= 3 {
+        let arr: [T; 3] = [items[0].clone(), items[1].clone(), items[2].clone()];
+        let mut want = Vec::new();
+        for x in arr.iter() {
+            want.extend_from_slice(&bare(x));
+        }
+        let got = bare(&arr);
+        out.push("#stat extras-bulk-checks 1".into());
+        if got != want {
+            out.push(format!("!C04 bulk-bytes-differ-from-itemwise type=[{};3] itemwise={} bulk={}", name, hex(&want), hex(&got)));
+        }
+    }
+    // data written item by item (by an older build, or through another container) read by the bulk-capable reader
+    let r = catch_unwind(AssertUnwindSafe(|| {
+        let mut cur = std::io::Cursor::new(&with_len[..]);
+        Deserializer::bare_deserialize::<Vec<T>>(&mut cur, 0)
+    }));
+    out.push("#stat extras-bulk-checks 1".into());
+    match r {
+        Ok(Ok(back)) => {
+            if back.len() != items.len() || back.iter().zip(items.iter()).any(|(a, b)| !same(a, b)) {
+                out.push(format!("!C04 itemwise-data-misread-by-bulk-reader type=Vec<{}> bytes={}", name, hex(&with_len)));
+            }
+        }
+        Ok(Err(e)) => out.push(format!("!C04 itemwise-data-rejected-by-bulk-reader type=Vec<{}> got={}", name, err_class(&e))),
+        Err(_) => out.push(format!("!C04 itemwise-data-panics-bulk-reader type=Vec<{}> got={}", name, panic_class(&last_panic()))),
+    }
+}
+
+/// derived structs around library types with their own `Packed` impl: if the field type claims to be packed in a
+/// layout that is not its wire order, the struct is written as memory but read field by field
+#[derive(savefile_derive::Savefile, Clone, PartialEq, Debug)]
+#[repr(C)]
+pub struct PoseF64 {
+    pub iso: nalgebra::Isometry3<f64>,
+    pub stamp: f64,
+}
+#[derive(savefile_derive::Savefile, Clone, PartialEq, Debug)]
+#[repr(C)]
+pub struct PointsF32 {
+    pub a: nalgebra::Point3<f32>,
+    pub b: nalgebra::Vector3<f32>,
+    pub c: emath::Pos2,
+    pub d: emath::Vec2,
+    pub e: ecolor::Color32,
+}
+
+fn f32_of(r: &mut Rng) -> f32 {
+    match r.below(6) {
+        0 => 0.0,
+        1 => -1.5,
+        2 => f32::MAX,
+        3 => f32::from_bits(r.next() as u32 & 0x7f7f_ffff),
+        _ => (r.below(2000) as f32 - 1000.0) / 8.0,
+    }
+}
+fn f64_of(r: &mut Rng) -> f64 {
+    match r.below(6) {
+        0 => 0.0,
+        1 => -2.25,
+        2 => f64::MIN_POSITIVE,
+        _ => (r.below(200000) as f64 - 100000.0) / 64.0,
+    }
+}
+fn iso_f64(r: &mut Rng) -> nalgebra::Isometry3<f64> {
+    nalgebra::Isometry3::from_parts(
+        nalgebra::Translation3::new(f64_of(r), f64_of(r), f64_of(r)),
+        nalgebra::UnitQuaternion::from_euler_angles(f64_of(r) / 1000.0, f64_of(r) / 1000.0, f64_of(r) / 1000.0),
+    )
+}
+fn iso_f32(r: &mut Rng) -> nalgebra::Isometry3<f32> {
+    nalgebra::Isometry3::from_parts(
+        nalgebra::Translation3::new(f32_of(r) / 1e30, f32_of(r) / 1e30, f32_of(r) / 1e30),
+        nalgebra::UnitQuaternion::from_euler_angles(0.25, (r.below(100) as f32) / 100.0, -0.5),
+    )
+}
+
+/// feature-gated library types (nalgebra, emath, ecolor, chrono)
+fn feature_types(r: &mut Rng, out: &mut Vec<String>) {
+    use nalgebra::{Isometry3, Point3, Vector3};
+    let bits32 = |a: &f32, b: &f32| a.to_bits() == b.to_bits();
+    let bits64 = |a: &f64, b: &f64| a.to_bits() == b.to_bits();
+    let p3f: Vec<Point3<f32>> = (0..4).map(|_| Point3::new(f32_of(r), f32_of(r), f32_of(r))).collect();
+    let v3d: Vec<Vector3<f64>> = (0..4).map(|_| Vector3::new(f64_of(r), f64_of(r), f64_of(r))).collect();
+    let i3d: Vec<Isometry3<f64>> = (0..4).map(|_| iso_f64(r)).collect();
+    let i3f: Vec<Isometry3<f32>> = (0..3).map(|_| iso_f32(r)).collect();
+    let same_p3f = |a: &Point3<f32>, b: &Point3<f32>| a.iter().zip(b.iter()).all(|(x, y)| bits32(x, y));
+    let same_v3d = |a: &Vector3<f64>, b: &Vector3<f64>| a.iter().zip(b.iter()).all(|(x, y)| bits64(x, y));
+    let iso_parts_d = |a: &Isometry3<f64>| -> Vec<u64> { a.translation.vector.iter().chain(a.rotation.coords.iter()).map(|x| x.to_bits()).collect() };
+    let iso_parts_f = |a: &Isometry3<f32>| -> Vec<u32> { a.translation.vector.iter().chain(a.rotation.coords.iter()).map(|x| x.to_bits()).collect() };
+    let same_i3d = |a: &Isometry3<f64>, b: &Isometry3<f64>| iso_parts_d(a) == iso_parts_d(b);
+    let same_i3f = |a: &Isometry3<f32>, b: &Isometry3<f32>| iso_parts_f(a) == iso_parts_f(b);
+    probe("Point3_f32", &p3f[0], same_p3f, |a| format!("{:?}", a).replace(' ', "_"), r, out);
+    probe("Vector3_f64", &v3d[0], same_v3d, |a| format!("{:?}", a).replace(' ', "_").replace('\n', ""), r, out);
+    probe("Isometry3_f64", &i3d[0], same_i3d, |a| format!("{:?}", iso_parts_d(a)).replace(' ', "_"), r, out);
+    probe("Isometry3_f32", &i3f[0], same_i3f, |a| format!("{:?}", iso_parts_f(a)).replace(' ', "_"), r, out);
+    bulk_probe("Point3_f32", &p3f, same_p3f, out);
+    bulk_probe("Vector3_f64", &v3d, same_v3d, out);
+    bulk_probe("Isometry3_f64", &i3d, same_i3d, out);
+    bulk_probe("Isometry3_f32", &i3f, same_i3f, out);
+    // emath / ecolor
+    let pos: Vec<emath::Pos2> = (0..4).map(|_| emath::Pos2::new(f32_of(r), f32_of(r))).collect();
+    let vec2: Vec<emath::Vec2> = (0..4).map(|_| emath::Vec2::new(f32_of(r), f32_of(r))).collect();
+    let col: Vec<ecolor::Color32> = (0..4).map(|_| { let x = r.next(); ecolor::Color32::from_rgba_premultiplied(x as u8, (x >> 8) as u8, (x >> 16) as u8, (x >> 24) as u8) }).collect();
+    let same_pos = |a: &emath::Pos2, b: &emath::Pos2| bits32(&a.x, &b.x) && bits32(&a.y, &b.y);
+    let same_vec2 = |a: &emath::Vec2, b: &emath::Vec2| bits32(&a.x, &b.x) && bits32(&a.y, &b.y);
+    let same_col = |a: &ecolor::Color32, b: &ecolor::Color32| a.to_array() == b.to_array();
+    probe("Pos2", &pos[0], same_pos, |a| format!("{:?}", a).replace(' ', "_"), r, out);
+    probe("Vec2", &vec2[0], same_vec2, |a| format!("{:?}", a).replace(' ', "_"), r, out);
+    probe("Color32", &col[0], same_col, |a| format!("{:?}", a.to_array()).replace(' ', "_"), r, out);
+    bulk_probe("Pos2", &pos, same_pos, out);
+    bulk_probe("Vec2", &vec2, same_vec2, out);
+    bulk_probe("Color32", &col, same_col, out);
+    // chrono
+    let secs = (r.next() % 4_000_000_000) as i64 - 1_000_000_000;
+    if let Some(dt) = chrono::DateTime::<chrono::Utc>::from_timestamp(secs, (r.next() % 1_000_000_000) as u32) {
+        probe("DateTime_Utc", &dt, |a, b| a == b, |a| format!("{:?}", a).replace(' ', "_"), r, out);
+    }
+    // derived structs around them
+    let poses: Vec<PoseF64> = (0..3).map(|_| PoseF64 { iso: iso_f64(r), stamp: f64_of(r) }).collect();
+    let same_pose = |a: &PoseF64, b: &PoseF64| same_i3d(&a.iso, &b.iso) && bits64(&a.stamp, &b.stamp);
+    probe("PoseF64", &poses[0], same_pose, |a| format!("{:?}_{}", iso_parts_d(&a.iso), a.stamp.to_bits()).replace(' ', "_"), r, out);
+    bulk_probe("PoseF64", &poses, same_pose, out);
+    let pts: Vec<PointsF32> = (0..3).map(|k| PointsF32 { a: p3f[k], b: Vector3::new(f32_of(r), f32_of(r), f32_of(r)), c: pos[k], d: vec2[k], e: col[k] }).collect();
+    let same_pts = |x: &PointsF32, y: &PointsF32| same_p3f(&x.a, &y.a) && x.b.iter().zip(y.b.iter()).all(|(p, q)| bits32(p, q)) && same_pos(&x.c, &y.c) && same_vec2(&x.d, &y.d) && same_col(&x.e, &y.e);
+    probe("PointsF32", &pts[0], same_pts, |a| format!("{:?}", a).replace(' ', "_").replace('\n', ""), r, out);
+    bulk_probe("PointsF32", &pts, same_pts, out);
+}
+
 pub fn cases(r: &mut Rng, n: usize) -> Vec<String> {
     let mut out = Vec::new();
     for i in 0..n {
+        feature_types(r, &mut out);
         // bit_vec::BitVec
         let nbits = match i % 4 {
             0 => 0,
